@@ -25,6 +25,19 @@ impl PanicInfo {
 
 pub fn cut_message(msg: &str) -> String {
     let first = msg.lines().next().unwrap_or("");
+    // "... failed for <name>: <reason>": the reason identifies the defect, the name of the
+    // generated function does not (except the runtime helper `missing`, KF-29)
+    let owned;
+    let first = match first.find(" failed for ").and_then(|i| {
+        let rest = &first[i + 12..];
+        rest.find(": ").map(|j| (i + 12, i + 12 + j))
+    }) {
+        Some((a, b)) if &first[a..b] != "missing" => {
+            owned = format!("{}_{}", &first[..a], &first[b..]);
+            owned.as_str()
+        }
+        _ => first,
+    };
     let mut out = String::new();
     for c in first.chars() {
         if c.is_ascii_digit() || matches!(c, '"' | '\'' | '`' | '(' | '[' | '{' | '=' | '<') {
